@@ -14,10 +14,19 @@ def make_replay(root, repo, pid, P, failures, unit_results, seed, undecided=None
     os.makedirs(outdir, exist_ok=True)
     path = os.path.join(outdir, "%s-%d.json" % (pid, int(time.time())))
     witness = None
-    searcher = P.get("searcher")
+    searchers = P.get("searcher")
+    if isinstance(searchers, str):
+        searchers = [searchers]
+    searcher = None
     search_log = ""
-    if searcher:
-        witness, search_log = run_searcher(root, repo, searcher, pid, [f.name for f in failures], seed)
+    for sname in (searchers or []):
+        w, lg = run_searcher(root, repo, sname, pid, [f.name for f in failures], seed)
+        search_log += "\n== %s ==\n%s" % (sname, lg[-2500:])
+        if w is not None:
+            witness, searcher = w, sname
+            break
+    if searcher is None and searchers:
+        searcher = searchers[0]
     doc = dict(
         property=pid,
         failed_obligations=[dict(name=f.name, kind=f.kind, message=f.message, where=f.where, verifier_output=f.rendered) for f in failures],
